@@ -32,6 +32,23 @@ var lspTexts = []string{
 }
 var lspProbes = [][2]int{{0, 0}, {3, 6}, {4, 11}, {1, 16}}
 
+// The specification treats texts as opaque identifiers; every history is replayed under two assignments of concrete texts
+// to them: unrelated texts (above), and texts that are near-variants of ONE script - blank lines in front, blanks behind, a
+// leading blank, one character replaced (same length), the last newline missing - so that a server which decides "nothing
+// changed" from a digest of the text (trimmed content, length, prefix, number of lines) answers from a stale analysis.
+const lspBase = "vars {\n account $a\n}\nsend [USD 1] (\n source = $a\n destination = @b\n)\nset_tx_meta(\"k\", $a)"
+
+var lspTextSets = [][]string{
+	nil, // filled in init: the unrelated texts
+	{"", lspBase + "\n", "\n\n" + lspBase + "\n", lspBase, lspBase + "\n\n\n", strings.Replace(lspBase, "$a\n}", "$b\n}", 1) + "\n"},
+}
+var lspProbeSets = [][][2]int{nil, {{0, 0}, {4, 11}, {6, 11}, {7, 18}}}
+
+func init() {
+	lspTextSets[0] = lspTexts
+	lspProbeSets[0] = lspProbes
+}
+
 var captureMu sync.Mutex
 
 // run f with stdout / stderr captured (the server prints its notifications)
@@ -226,6 +243,8 @@ func cmdLspCheck(args []string) {
 		if err := json.Unmarshal(b, &hist); err != nil {
 			die(2, "bad history: %v", err)
 		}
+		for set := range lspTextSets {
+		lspTexts, lspProbes = lspTextSets[set], lspProbeSets[set]
 		long := lsp.InitialState()
 		res := []any{}
 		stale := false
@@ -267,14 +286,15 @@ func cmdLspCheck(args []string) {
 				stale = true
 			}
 		}
-		lw.write(J{"e": "lsp", "n": n, "hist": hist, "steps": res})
+		lw.write(J{"e": "lsp", "n": n, "hist": hist, "steps": res, "textset": set})
 		if stale {
 			nontriv++
 		}
 		if len(samples) < 2 && n%1500 == 700 {
-			samples = append(samples, J{"history": hist, "replies": res})
+			samples = append(samples, J{"history": hist, "replies": res, "textset": set})
 		}
 		n++
+		}
 	})
 	lw.close()
 	printJSON(J{"cases": n, "steps": steps, "nontrivial": nontriv, "samples": samples})
@@ -302,12 +322,18 @@ func cmdNavCheck(args []string) {
 		if err := json.Unmarshal(b, &g); err != nil {
 			die(2, "bad gen line: %v", err)
 		}
+		// every script as printed, and once more without its final line break(s): no position of the expected table moves
+		texts := []string{g.Text}
+		if t := strings.TrimRight(g.Text, "\r\n"); t != g.Text && t != "" {
+			texts = append(texts, t)
+		}
+		for _, gText := range texts {
 		st := lsp.InitialState()
 		uri := "file:///nav.num"
 		probes := []any{}
 		_, pm := capture(func() {
-			lsp.Handle(lspReq("textDocument/didOpen", J{"textDocument": J{"uri": uri, "languageId": "numscript", "version": 1, "text": g.Text}}), &st)
-			lines := strings.Split(g.Text, "\n")
+			lsp.Handle(lspReq("textDocument/didOpen", J{"textDocument": J{"uri": uri, "languageId": "numscript", "version": 1, "text": gText}}), &st)
+			lines := strings.Split(gText, "\n")
 			for li, l := range lines {
 				for ch := 0; ch <= len([]rune(l)); ch++ {
 					pos := J{"line": li, "character": ch}
@@ -353,11 +379,12 @@ func cmdNavCheck(args []string) {
 			normNums(nd)
 			nodes[i] = nd
 		}
-		lw.write(J{"e": "nav", "id": g.ID, "n": n, "text": g.Text, "expnodes": nodes, "probes": probes, "panic": pm})
+		lw.write(J{"e": "nav", "id": g.ID, "n": n, "text": gText, "expnodes": nodes, "probes": probes, "panic": pm})
 		if len(samples) < 1 && len(probes) > 50 {
-			samples = append(samples, J{"text": g.Text, "positions_probed": len(probes)})
+			samples = append(samples, J{"text": gText, "positions_probed": len(probes)})
 		}
 		n++
+		}
 	})
 	lw.close()
 	printJSON(J{"cases": n, "positions": positions, "nontrivial": hits, "samples": samples})
